@@ -259,7 +259,7 @@ def implCall (c : CE) (a : Arg) : Res V :=
   | .error _ => .error .other
 def specCall (c : CE) (a : Arg) : Res V :=
   match c.spec with
-  | .ok S => Spec.call S a
+  | .ok S => Spec.callAny S a
   | .error _ => .error .other
 def specKeyed (c : CE) : Bool :=
   match c.spec with
@@ -269,13 +269,13 @@ def specKeyed (c : CE) : Bool :=
 def mkCall (id strat : String) (c : CE) (a : ArgL) : Case :=
   { id := id, cls := classOf c, kind := "call", stratum := strat,
     model := obsC (implCall c a.arg),
-    spec := if specKeyed c then obsC (specCall c a.arg) else "!panic",
+    spec := obsC (specCall c a.arg),
     payload := [c.src, a.src] }
 
 def mkPlainCall (id strat : String) (c : CE) (a : ArgL) : Case :=
   { id := id, cls := classOf c, kind := "eval", stratum := strat,
     model := obsE (implCall c a.arg),
-    spec := if specKeyed c then obsE (specCall c a.arg) else "!panic",
+    spec := obsE (specCall c a.arg),
     payload := [s!"{c.src}({a.src})"] }
 
 def mkSafe (id strat : String) (c : CE) (a : ArgL) : Case :=
@@ -283,11 +283,28 @@ def mkSafe (id strat : String) (c : CE) (a : ArgL) : Case :=
     | .ok r => (Impl.safeCall r a.arg fbV).2
     | .error _ => .error .other
   let s : Res V := match c.spec with
-    | .ok S => (Spec.safeCall S a.arg fbV).2
+    | .ok S => (match Spec.callAny S a.arg with | .error .noReturn => .ok fbV | r => r)
     | .error _ => .error .other
   { id := id, cls := classOf c, kind := "eval", stratum := strat,
-    model := obsE m, spec := if specKeyed c then obsE s else "!panic",
+    model := obsE m, spec := obsE s,
     payload := [s!"{c.src}({a.src})?:{fbSrc}"] }
+
+/-- `c(<expr>)?:d` where the argument expression itself fails: with a missing attribute the fallback
+is taken (known finding), any other failure is an error as specified -/
+def mkSafeX (id strat : String) (c : CE) (x : Spec.ArgX) : Case :=
+  let argSrc := match x with
+    | .missingAttr => "(a: 1).b"
+    | .otherErr => "{1: 2}(7)"
+    | .val _ => "0"
+  let m : Res V := match c.impl with
+    | .ok r => (Impl.safeCallX r x fbV).2
+    | .error _ => .error .other
+  let s : Res V := match c.spec with
+    | .ok S => (Spec.safeCallX S x fbV).2
+    | .error _ => .error .other
+  let bad := match x with | .missingAttr => true | _ => false
+  { id := id, cls := if bad then "KF-safecall-arg-missing-attr" else classOf c, kind := "eval", stratum := strat,
+    model := obsE m, spec := obsE s, payload := [s!"{c.src}({argSrc})?:{fbSrc}"] }
 
 /-- `c(i)?(j)?:d` / `c(i)(j)?:d`: two call tails, the first one safe or not (SafeTailExpr's loop) -/
 def mkChain (id strat : String) (c : CE) (safe1 : Bool) (i j : ArgL) : Case :=
@@ -304,13 +321,13 @@ def mkChain (id strat : String) (c : CE) (safe1 : Bool) (i j : ArgL) : Case :=
       | .ok v => step2 v (fun v => Impl.setCall (Impl.build (Spec.members v)) j.arg))
     | .error _ => .error .other
   let s : Res V := match c.spec with
-    | .ok S => (match Spec.call S i.arg with
+    | .ok S => (match Spec.callAny S i.arg with
       | .error .noReturn => if safe1 then .ok fbV else .error .noReturn
       | .error e => .error e
-      | .ok v => step2 v (fun v => Spec.call v j.arg))
+      | .ok v => step2 v (fun v => Spec.callAny v j.arg))
     | .error _ => .error .other
   { id := id, cls := classOf c, kind := "eval", stratum := strat,
-    model := obsE m, spec := if specKeyed c then obsE s else "!panic",
+    model := obsE m, spec := obsE s,
     payload := [if safe1 then s!"{c.src}({i.src})?({j.src})?:{fbSrc}" else s!"{c.src}({i.src})({j.src})?:{fbSrc}"] }
 
 def mkValue (id strat : String) (c : CE) : Case :=
@@ -559,7 +576,10 @@ def genCase (idx : Nat) : Gen Case := do
   else if kind < 9 then do
     let (c, rep) ← genKeyed
     let (a, ak) ← genArgFor c
-    pure (mkSafe id s!"safecall/{rep}/{ak}" c a)
+    if (← chance 1 12) && Spec.keyed (match c.spec with | .ok S => S | .error _ => V.none) && c.spec.toOption.isSome then
+      if (← chance 1 2) then pure (mkSafeX id s!"safecall/{rep}/arg-expr-missing-attr" c .missingAttr)
+      else pure (mkSafeX id s!"safecall/{rep}/arg-expr-fails" c .otherErr)
+    else pure (mkSafe id s!"safecall/{rep}/{ak}" c a)
   else if kind < 10 then do
     if (← chance 1 2) then do
       let (c, rep) ← genKeyed
@@ -593,7 +613,10 @@ def genCase (idx : Nat) : Gen Case := do
     -- `++` over all pairs of kinds, offset / sparse operands included
     let ka ← genSK
     let kb ← genSK
-    let (a, ha) ← if (← chance 1 6) then genJoinRelNamed (← pick ["$a", "a", "@item", "@char"]) else genSeq ka
+    let ra ← rand 8
+    let (a, ha) ← if ra == 0 then genJoinRel
+      else if ra == 1 then do pure ((CE.union (← genDictLit) (← genDictLit)), "dict-union")   -- Dict.Count of multi-valued keys
+      else genSeq ka
     let r ← rand 6
     let (b, hb) ← if r == 0 then do pure ((← genDictLit), "dict") else if r == 1 then genJoinRel else genSeq kb
     let e := CE.concat a b
@@ -612,13 +635,18 @@ def genCase (idx : Nat) : Gen Case := do
       pure (mkCall id s!"offset+call/{k.name}-{how}/{ak}" e x)
     else pure (mkValue id s!"offset/{k.name}-{how}" e)
   else do
-    -- collections that are not keyed: only "a value or an error, no crash" is demanded of a call
+    -- sets that are not keyed: a foreign member makes a call an error of class `other` (no fallback),
+    -- `true` answers like the empty set; `>>` is an error
     let c ← pick [CE.tt, .plain [.num 1, .num 2], .union (.str 0 [97, 98]) (.plain [.num 5]),
-                  .union (.str 0 [97, 98]) .tt, .pairs [(.num 1, "a", .num 2)], .plain [.tup [("@", .num 1)]],
-                  .plain [.tup [("@", .num 1), ("a", .num 2), ("b", .num 3)]]]
+                  .union (.str 0 [97, 98]) .tt, .plain [.tup [("@", .num 1)]],
+                  .plain [.tup [("@", .num 1), ("a", .num 2), ("b", .num 3)]],
+                  .union (.str 0 [97, 98]) (.plain [.tup [], .num 5]), .plain [.tup [("a", .num 1)]],
+                  .union (.dict [(.num 1, .num 2)]) .tt, .union (.arr 0 [some (.num 7)]) (.plain [.tup [("a", .num 1)]]),
+                  .union .tt (.plain [.tup [("a", .num 1)]]), .plain [.str 0 [97], .num 0]]
     let r ← rand 3
-    if r == 0 then pure (mkCall id "nonkeyed/call" c (.lit (.num 1)))
-    else if r == 1 then pure (mkSafe id "nonkeyed/safecall" c (.lit (.num 0)))
+    let k ← pick [ArgL.lit (.num 0), .lit (.num 1), .lit (.num 5), .frac 0, .lit (.str 0 [120])]
+    if r == 0 then pure (mkCall id "nonkeyed/call" c k)
+    else if r == 1 then pure (mkSafe id "nonkeyed/safecall" c k)
     else pure (mkValue id "nonkeyed/seqarrow" (.arrow false .ident c))
 
 /-- the rows of a join-built relation as literals (for writing the same collection another way) -/
@@ -711,6 +739,11 @@ def corpus : List Case :=
     mkCall "C05-corpus-17" "corpus/rel-name-before-at" (.relLit true "$a" [(.num 1, .num 30)]) (.lit (.num 1)),
     mkSafe "C05-corpus-18" "corpus/rel-at-last-safe"
       (.compose false "$a" [(.num 1, .num 2)] [(.num 2, .num 30)]) (.lit (.num 30)),
+    mkSafeX "C05-corpus-19" "corpus/safecall-arg-missing-attr" (.str 0 [97, 98, 99]) .missingAttr,
+    mkSafeX "C05-corpus-20" "corpus/safecall-arg-fails" (.str 0 [97, 98, 99]) .otherErr,
+    mkCall "C05-corpus-21" "corpus/nonkeyed-true" .tt (.lit (.num 1)),
+    mkCall "C05-corpus-22" "corpus/nonkeyed-true-union" (.union (.str 0 [97, 98]) .tt) (.lit (.num 1)),
+    mkSafe "C05-corpus-23" "corpus/nonkeyed-foreign-no-fallback" (.union (.str 0 [97, 98]) (.plain [.num 5])) (.lit (.num 7)),
     -- the same member reaches the builder twice: the count of the result must still be 2
     mkValue "C05-corpus-13" "corpus/dup-member-count"
       (.concat (.concat ab (.offset (.lit (.num (-1))) (.str 0 [98]))) (.str 0 [120])) ]
